@@ -49,6 +49,9 @@ class Ctx:
         self.nsolver = 0
         self.exp_terms = []
         self.log_terms = []
+        self.nonneg = set()          # ids of terms known >= 0 (sqrt let-variables): abs() is the identity
+        self.notes = []              # per-path annotations (e.g. stubbed calls)
+        self.memo = {}               # common sub-expressions: same sqrt / quotient -> same let variable
 
     def hyps(self):
         return self.pre + self.pc + self.defs
@@ -177,12 +180,16 @@ def _div(num, den, label='div'):
             c.safety.append((label, list(c.pc), list(c.defs), z3.BoolVal(False)))
             raise ZeroDivisionError('division by the constant zero on this path')
         return z3.simplify(num * z3.RealVal(str(1 / d)))
+    key = ('div', num.get_id(), den.get_id())
+    if key in c.memo:
+        return c.memo[key]
     c.safety.append((label, list(c.pc), list(c.defs), den != 0))
     c.pc.append(den != 0)
     if is_num(num) and num_value(num) == 0:
         return z3.RealVal(0)
     q = fresh('q')
     c.defs.append(q * den == num)
+    c.memo[key] = q
     return q
 
 
@@ -197,10 +204,16 @@ def sym_sqrt(x):
         r = Fraction(math.isqrt(v.numerator), math.isqrt(v.denominator))
         if r * r == v:
             return SymReal(z3.RealVal(str(r)))
+    e = z3.simplify(e)
+    key = ('sqrt', e.get_id())
+    if key in c.memo:
+        return SymReal(c.memo[key])
     c.safety.append(('sqrt-domain', list(c.pc), list(c.defs), e >= 0))
     c.pc.append(e >= 0)
     r = fresh('sqrt')
     c.defs.append(z3.And(r >= 0, r * r == e))
+    c.memo[key] = r
+    c.nonneg.add(r.get_id())
     return SymReal(r)
 
 
@@ -287,6 +300,10 @@ class SymReal:
         raise Unsupported('symbolic exponent')
 
     def __abs__(self):
+        if CTX is not None and self.e.get_id() in CTX.nonneg:
+            return self
+        if is_num(self.e):
+            return SymReal(z3.RealVal(str(abs(num_value(self.e)))))
         return SymReal(z3.If(self.e >= 0, self.e, -self.e))
 
     # ---- comparisons
@@ -344,7 +361,7 @@ class SymReal:
 # ------------------------------------------------------------------ exploration
 
 class Path:
-    __slots__ = ('pc', 'defs', 'out', 'safety', 'exc', 'decisions', 'exp_terms', 'log_terms')
+    __slots__ = ('pc', 'defs', 'out', 'safety', 'exc', 'decisions', 'exp_terms', 'log_terms', 'notes')
 
 
 def explore(fn, pre=(), max_paths=20000, feas_timeout=1500):
@@ -379,6 +396,7 @@ def explore(fn, pre=(), max_paths=20000, feas_timeout=1500):
         p.pc, p.defs, p.safety = list(c.pc), list(c.defs), list(c.safety)
         p.decisions = list(c.decisions)
         p.exp_terms, p.log_terms = list(c.exp_terms), list(c.log_terms)
+        p.notes = list(c.notes)
         paths.append(p)
         if len(paths) > max_paths:
             raise PathLimit(f'more than {max_paths} paths')
